@@ -48,9 +48,10 @@ const (
 	kPkgVar
 	kWrite
 	kLockSpin
+	kStmt
 )
 
-var kindName = map[int]string{kFunc: "func", kFuncLit: "funclit", kLoop: "loop", kPkgVar: "pkgvar", kWrite: "write", kLockSpin: "lockspin"}
+var kindName = map[int]string{kFunc: "func", kFuncLit: "funclit", kLoop: "loop", kPkgVar: "pkgvar", kWrite: "write", kLockSpin: "lockspin", kStmt: "stmt"}
 
 type site struct {
 	ID   int    `json:"id"`
@@ -322,7 +323,15 @@ func (r *rewriter) stmtList(list []ast.Stmt) []ast.Stmt {
 					out = append(out, r.yield(inner.Pos(), kPkgVar))
 				} else if r.writesShared(inner) {
 					out = append(out, r.yield(inner.Pos(), kWrite))
+				} else {
+					out = append(out, r.yield(inner.Pos(), kStmt))
 				}
+			}
+		case *ast.IfStmt, *ast.SwitchStmt, *ast.TypeSwitchStmt, *ast.ForStmt, *ast.RangeStmt:
+			// statement-level granularity: the init / condition of a compound statement may
+			// read shared memory
+			if inner == s {
+				out = append(out, r.yield(inner.Pos(), kStmt))
 			}
 		}
 		out = append(out, s)
